@@ -105,10 +105,12 @@ def after : Op → Out
   | .update g r => .writes [(g, r)]
   | .enable _ => .panic
 
-/-- What the outside world can see of an output: the requests reaching the Kubernetes client, in
-order (an `Update` call without requests is invisible). -/
-def Out.flat : Out → List Req
-  | .writes ws => (ws.map (·.2)).flatten
-  | .panic => []
+/-- every `Updater.Update` call of a run, in order -/
+def allWrites (outs : List Out) : List Write :=
+  (outs.filterMap fun | .writes ws => some ws | .panic => none).flatten
+
+/-- the submissions among `ops`, in order -/
+def submissions (ops : List Op) : List Write :=
+  ops.filterMap fun | .update g r => some (g, r) | .enable _ => none
 
 end NGF.Leader
